@@ -162,6 +162,10 @@ def prop_paradiag(case, r):
         'problem_class': testequation0d, 'problem_params': {'lambdas': lam, 'u0': 1.0}, 'sweeper_class': QDiagonalization,
         'sweeper_params': {'num_nodes': case['num_nodes'], 'quad_type': 'RADAU-RIGHT'}, 'level_params': {'dt': dt, 'restol': restol}, 'step_params': {'maxiter': 60},
     }  # fmt: skip
+    script = case.get('script')
+    if script:
+        # step-size changes between blocks (no restarts): proposals of the last step of a block, applied by the library's spreader
+        desc['convergence_controllers'] = {R.Inject: {'script': script}}
     log = []
 
     def capture(name, step, lvl):
@@ -186,14 +190,30 @@ def prop_paradiag(case, r):
     if any(e['iter'] >= 60 for e in log):
         r.discard('ParaDiag iteration did not converge')
         return
-    if not r.check(len(log) == N, 'paradiag-step-count', f'{len(log)} accepted steps, expected {N} (t0={t0}, dt={dt}, {Ln} steps x {nb} blocks)'):
-        return
     log.sort(key=lambda e: e['time'])
     scale = max(abs(t0), abs(Tend), 1.0)
-    for i, e in enumerate(log):
-        r.close(abs(e['time'] - (t0 + i * dt)), 4 * (i + 2) * np.finfo(float).eps * scale, 'paradiag-tiling', f'step {i} starts at {e["time"]!r}, expected {t0 + i * dt!r}')
-        r.check(e['dt'] == dt, 'paradiag-dt', f'step {i} has dt {e["dt"]!r}')
-        r.check(e['time'] < Tend, 'paradiag-start-beyond-Tend', f'step {i} starts at {e["time"]!r} >= Tend {Tend!r}')
+    if script:
+        r.label('paradiag-dt-changes')
+        # the controller solves whole blocks (documented): judged are contiguity, one step size per block, reaching Tend
+        r.check(len(log) % Ln == 0, 'paradiag-step-count', f'{len(log)} steps are not whole blocks of {Ln}')
+        for i, e in enumerate(log):
+            if i > 0:
+                p_ = log[i - 1]
+                r.close(abs(e['time'] - (p_['time'] + p_['dt'])), 8 * (i + 2) * np.finfo(float).eps * scale, 'paradiag-tiling', f'step {i} starts at {e["time"]!r}, previous step {p_["time"]!r} + {p_["dt"]!r}')
+            if i % Ln:
+                r.check(e['dt'] == log[i - 1]['dt'], 'paradiag-block-dt', f'steps {i - 1} and {i} of one block have step sizes {log[i - 1]["dt"]!r}, {e["dt"]!r}')
+        r.check(abs(log[0]['time'] - t0) == 0, 'paradiag-tiling', f'first step starts at {log[0]["time"]!r}, t0={t0!r}')
+        r.check(log[-1]['time'] + log[-1]['dt'] >= Tend - 1e-9 * scale, 'paradiag-stopped-early', f'last step ends at {log[-1]["time"] + log[-1]["dt"]!r}, Tend={Tend!r}')
+        if len({e['dt'] for e in log}) > 1:
+            r.label('paradiag-dt-changed-effectively')
+        N = len(log)
+    else:
+        if not r.check(len(log) == N, 'paradiag-step-count', f'{len(log)} accepted steps, expected {N} (t0={t0}, dt={dt}, {Ln} steps x {nb} blocks)'):
+            return
+        for i, e in enumerate(log):
+            r.close(abs(e['time'] - (t0 + i * dt)), 4 * (i + 2) * np.finfo(float).eps * scale, 'paradiag-tiling', f'step {i} starts at {e["time"]!r}, expected {t0 + i * dt!r}')
+            r.check(e['dt'] == dt, 'paradiag-dt', f'step {i} has dt {e["dt"]!r}')
+            r.check(e['time'] < Tend, 'paradiag-start-beyond-Tend', f'step {i} starts at {e["time"]!r} >= Tend {Tend!r}')
     r.check(np.array_equal(np.asarray(log[0]['u0']), u0_before), 'paradiag-first-start-value', 'first step does not start from the initial value')
     vs = max(1.0, max(np.abs(e['uend']).max() for e in log))
     for i in range(1, N):
@@ -210,11 +230,14 @@ def prop_paradiag(case, r):
 @st.composite
 def paradiag_cases(draw):
     n = draw(st.integers(1, 2))
-    return {
+    case = {
         'n_steps': draw(st.integers(1, 4)), 'nblocks': draw(st.integers(1, 4)), 'dt': draw(st.sampled_from([0.1, 0.25, 0.05, 0.3])), 't0': draw(st.sampled_from([0.0, 0.5, -1.0, 2.0])),
         'num_nodes': draw(st.integers(1, 3)), 'alpha': draw(st.sampled_from([1e-2, 1e-4, 1e-6])), 'lambdas': [[-abs(draw(S.small_float(-2, 2))) - 0.05, draw(S.small_float(-2, 2))] for _ in range(n)],
         'u0': [[draw(S.small_float(0.2, 1.5)), draw(S.small_float(-1, 1))] for _ in range(n)],
     }  # fmt: skip
+    if draw(st.integers(0, 2)) == 0 and case['nblocks'] >= 2:
+        case['script'] = [{'block': b, 'slot': case['n_steps'] - 1, 'restart': False, 'dt_new': float(case['dt'] * draw(st.sampled_from([0.5, 2.0, 0.75, 1.5])))} for b in sorted(draw(st.sets(st.integers(0, 2), min_size=1, max_size=2)))]
+    return case
 
 
 
